@@ -231,6 +231,16 @@ class Result:
             if key not in seen:
                 seen.add(key)
                 print("KNOWN-FINDING: property=%s %s" % (self.prop, what))
+        # every distinct violation key of this run (the report below is limited to 20)
+        try:
+            os.makedirs(WORK, exist_ok=True)
+            keys = {}
+            for key, what, _ in self.violations:
+                keys.setdefault(key, [0, what])[0] += 1
+            with open(os.path.join(WORK, "violations_%s.json" % self.prop), "w") as f:
+                json.dump(keys, f, indent=1, sort_keys=True)
+        except OSError:
+            pass
         if self.violations:
             shown = set()
             for key, what, payload in self.violations:
